@@ -121,7 +121,22 @@ SCHED_ASSUME = ["simulators always answer; replies API-compliant except where a 
 PROPERTIES["C01"] = {"run": _sched(_mon("C01")), "assumptions": SCHED_ASSUME}
 PROPERTIES["C02"] = {"run": _sched(_mon("C02")), "assumptions": SCHED_ASSUME + ["the liveness half (every demanded step is executed) is not a theorem yet: monitor + correspondence only"]}
 PROPERTIES["C05"] = {"run": _sched(_mon("C05"), extra=_replay_d7("C05")), "assumptions": SCHED_ASSUME + ["deadlock freedom and termination are not theorems yet: monitor + correspondence only"]}
-PROPERTIES["C07"] = {"run": _sched(_mon("C07")), "assumptions": SCHED_ASSUME + ["the run form of the promise is decided by the taint monitor, not by a theorem"]}
+def _c07_extra(o, driver, rng):
+    """Diamond scenarios (several trigger paths of different delay) + the ancestor-table correspondence."""
+    import sched_corr as scorr, suites_world as sw
+    n_sc, n_sched = (80, 2) if o.tier == "quick" else (2000, 4)
+    scs = [scorr.gen_diamond_scenario(rng) for _ in range(n_sc)]
+    res = scorr.run_sched_suite(driver, rng, n_sc, n_sched, name="diamonds", monitor=_mon("C07"), scenarios=scs)
+    o.suites.append(res)
+    o.violations.extend(res["violations"])
+    o.monitor_stats["diamond_traces_monitored"] = res["traces"]
+    o.monitor_stats["impl_monitor_violations"] = o.monitor_stats.get("impl_monitor_violations", 0) + len(res["violations"])
+    # triggering_ancestors computed by the code vs. by the model's closure
+    if driver is not None:
+        o.suites.append(sp.run_suite(driver, sw.suite_cycles(rng, o.tier)))
+
+
+PROPERTIES["C07"] = {"run": _sched(_mon("C07"), extra=_c07_extra), "assumptions": SCHED_ASSUME + ["the run form of the promise is decided by the taint monitor, not by a theorem"]}
 def _c09_loops(o, driver, rng):
     """Dedicated loop scenarios: loops of length around the bound, nested groups, several bound values."""
     import sched_corr as scorr
